@@ -209,6 +209,7 @@ def _w_step(ic, ps, cs, wstep, out):
         wt_in_soil=nc.wt_in_soil,
         w_state=(nc.precipitation, nc.temp_max, nc.temp_min, nc.et0),
         premat=bool(nc.premat_senes), z_root=float(nc.z_root),
+        delayed_cds=float(nc.delayed_cds), delayed_gdds=float(nc.delayed_gdds),
         n_final=len(out.final_stats),
     )
     if tr.o["digests"]:
@@ -499,6 +500,13 @@ def _chk_cc_dev(a, k, r):
     return None
 
 
+def _chk_aeration(a, k, r):
+    v = float(r[0])
+    if not (-1e-12 <= v <= 1 + 1e-12):
+        return f"aeration stress coefficient {v!r} outside [0,1] (aer_days={a[0]!r}, lag={a[1]!r})"
+    return None
+
+
 def install():
     """Install all wrappers (idempotent, per process)."""
     global _INSTALLED
@@ -522,6 +530,7 @@ def install():
     _contract_wrap("aquacrop.solution.harvest_index", "temperature_stress", _chk_temperature_stress)
     _contract_wrap("aquacrop.timestep.run_single_timestep", "growing_degree_day", _chk_gdd)
     _contract_wrap("aquacrop.solution.canopy_cover", "cc_development", _chk_cc_dev)
+    _contract_wrap("aquacrop.solution.transpiration", "aeration_stress", _chk_aeration)
     _INSTALLED = True
 
 
